@@ -11,6 +11,21 @@ package sumfile
 //@   ensures has(f.Data, pkgPath) ==> result == f.Data[pkgPath]
 //@   ensures !has(f.Data, pkgPath) ==> result == ""
 
+// spec_sumText(keys, data, n): the `path hash` lines of the first n keys, in order.
+func spec_sumText(keys []string, data map[string]string, n int) string {
+	if n <= 0 {
+		return ""
+	}
+	return spec_sumText(keys, data, n-1) + keys[n-1] + " " + data[keys[n-1]] + "\n"
+}
+
+//@ func File.Bytes
+//@   props C08 C04
+//@   requires f != nil
+//@   ensures string(result) == spec_sumText(spec_sortedKeys(f.Data), f.Data, len(f.Data))
+//@   loop 1 invariant b != nil && b.String() == spec_sumText(xs1, f.Data, it1)
+//@   note one `path hash` line per entry, keys ascending: a function of the map's contents only (order independence, C04)
+
 // ---- govc prelude: ghost helpers of the clause language (identical in every contracts_verif.go) ----
 
 func spec_old[T any](v T) T                             { return v }
@@ -46,4 +61,19 @@ func spec_forallIn(lo, hi int, p func(int) bool) bool {
 		}
 	}
 	return true
+}
+
+// spec_sortedKeys: the ascending enumeration of a map's key set (executable: insertion sort, no imports).
+func spec_sortedKeys[V any](m map[string]V) []string {
+	keys := make([]string, 0, len(m))
+	for k := range m {
+		i := len(keys)
+		keys = append(keys, k)
+		for i > 0 && keys[i-1] > k {
+			keys[i] = keys[i-1]
+			i--
+		}
+		keys[i] = k
+	}
+	return keys
 }
